@@ -19,8 +19,10 @@ RULE = (
 	'digraphs over 1-9 files, islands (unreachable files, also broken ones), missing and unparsable targets, files holding a single statement '
 	'(one import / one declaration / one comment), imports interleaved with declarations, nested directories, distinct files whose names differ '
 	'only in letter case / unicode normal form / under case folding, one file imported under several spellings (./x, zz/../x, x//y, d/./x, '
-	'd/../d/x), structs that carry a validation error of either stage (4 PRE_EXPANSION kinds, 4 POST_EXPANSION kinds) as plain / abstract / '
-	'inline struct, used as named inline / unnamed inline / member type / not at all, in the same or in an imported file; each graph is written to a '
+	'd/../d/x), structs that carry a validation error of either stage (8 PRE_EXPANSION kinds, among them 4 member attributes the member type '
+	'does not have; 4 POST_EXPANSION kinds) as plain / abstract / inline struct, used as named inline / unnamed inline / member type / not at all, '
+	'in the same or in an imported file, and valid sets in which @sizeref / @size / @discriminator / @comparer / @initializes name a member that '
+	'exists only once an inline struct (named or unnamed, also from an imported file) has been expanded; each graph is written to a '
 	'scratch directory and parsed from 2-3 (working directory x relative/absolute include path x root spelling) configurations through '
 	'LarkMultiFileParser().parse, through main() in-process (exit status, output file, generator) and through `python -m catparser` '
 	'subprocesses. A case is distinct by (graph, configuration, mode); non-trivial = the implementation was executed on it.')
@@ -69,6 +71,19 @@ def decl_text(kind, name, doc):
 		_, error, disposition = kind.split(':')
 		attribute, body = CARRIER_ERRORS[error]
 		return text + f'{attribute}{"" if "plain" == disposition else disposition + " "}struct {name}\n{body}'
+	if kind.startswith('refhost:'):  # refhost:<what refers>-<named|unnamed>:<name of an `ok-part` inline struct>
+		_, variant, carrier = kind.split(':')
+		what, usage = variant.rsplit('-', 1)
+		prefix = 'body_' if 'named' == usage else ''
+		inline = f'\tbody = inline {carrier}\n' if 'named' == usage else f'\tinline {carrier}\n'
+		attribute, members = {
+			'sizeref': ('', f'{inline}\t@sizeref({prefix}payload_size, 2)\n\ttotal = uint32\n'),
+			'size': (f'@size({prefix}payload_size)\n', f'{inline}\tother = uint8\n'),
+			'discriminator': (f'@discriminator({prefix}kind)\n', f'{inline}\tother = uint8\n'),
+			'comparer': (f'@comparer({prefix}kind!ripemd_keccak_256)\n', f'{inline}\tother = uint8\n'),
+			'initializes': (f'@initializes({prefix}kind, HOST_KIND)\n', f'\tHOST_KIND = make_const(uint8, 3)\n{inline}'),
+		}[what]
+		return text + f'{attribute}struct {name}\n{members}'
 	if kind.startswith('host:'):  # host:<named|unnamed|fieldtype>:<carrier name>
 		_, usage, carrier = kind.split(':')
 		member = {'named': f'body = inline {carrier}', 'unnamed': f'inline {carrier}', 'fieldtype': f'body = {carrier}'}[usage]
@@ -87,8 +102,18 @@ CARRIER_ERRORS = {
 	'post-discriminator': ('@discriminator(absent)\n', '\tfield_a = uint8\n'),
 	'post-initializes': ('@initializes(absent, FOO_BAR)\n', '\tfield_a = uint8\n'),
 	'post-comparer': ('@comparer(absent)\n', '\tfield_a = uint8\n'),
+	# a member attribute that the type of the member does not have: reported by the PRE_EXPANSION pass (`inapplicable attribute`), which runs
+	# before apply_attributes would raise on it
+	'pre-inapplicable-sort-key': ('', '\t@sort_key(key)\n\tfield_a = uint8\n'),
+	'pre-inapplicable-sizeref': ('', '\tcount = uint8\n\t@sizeref(count)\n\tfield_a = array(uint8, 3)\n'),
+	'pre-inapplicable-alignment': ('', '\t@alignment(8)\n\tfield_a = uint16\n'),
+	'pre-inapplicable-byte-constrained': ('', '\t@is_byte_constrained\n\tfield_a = uint32\n'),
 	'ok': ('', '\tfield_a = uint8\n'),
+	# members that attributes of a host refer to once the struct has been expanded into the host (`refhost:` kinds)
+	'ok-part': ('', '\tpayload_size = uint32\n\tkind = uint8\n'),
 }
+# attributes of a host that name a member which exists only after the expansion of an inline struct: a valid set (checked POST_EXPANSION)
+REFERENCES = ['sizeref', 'size', 'discriminator', 'comparer', 'initializes']
 
 
 UNPARSABLE_TEXTS = ['using lower = uint8\n', 'struct\n', '', 'using Foo = uint24\n', 'import foo\n', 'struct Foo\nfield = uint8\n', 'using Foo = uint8']
@@ -280,6 +305,14 @@ def gen_graph(rng, thorough):
 			for member in (host_file, carrier_file):
 				if 0 != member and rng.random() < 0.8 and not any(member in targets for source, targets in edges.items() if source != member):
 					edges[0].append(member)
+			if rng.random() < 0.3:
+				# a valid pair: attributes of the host name members that the inline struct brings in
+				carriers.setdefault(carrier_file, []).append(['decl', 'carrier:ok-part:inline', f'Car{number}x{carrier_file}', False])
+				carriers.setdefault(host_file, []).append([
+					'decl', f'refhost:{rng.choice(REFERENCES)}-{rng.choice(["named", "unnamed"])}:Car{number}x{carrier_file}', f'Host{number}x{host_file}', False])
+				continue
+			if 'ok-part' == error:
+				error = 'ok'
 			carriers.setdefault(carrier_file, []).append(['decl', f'carrier:{error}:{disposition}', f'Car{number}x{carrier_file}', rng.random() < 0.2])
 			if 'none' != usage:
 				carriers.setdefault(host_file, []).append(['decl', f'host:{usage}:Car{number}x{carrier_file}', f'Host{number}x{host_file}', False])
@@ -801,8 +834,8 @@ def run_case(ctx, impl, case, number):
 			corr_fail(ctx, f'the generated declarations were meant to fail validation at {intended[0]}, the validator over the whole parsed set says {found[0]} {whole_set}', case)
 		for name in spec[1]:
 			kind = next(item[1] for s in graph['files'].values() for item in s['items'] if 'decl' == item[0] and name == item[2])
-			if kind.startswith('carrier:') or kind.startswith('host:'):
-				ctx.count('validation-carrier:' + kind.rsplit(':', 1)[0] if kind.startswith('host:') else 'validation-carrier:' + kind)
+			if kind.startswith(('carrier:', 'host:', 'refhost:')):
+				ctx.count('validation-carrier:' + (kind if kind.startswith('carrier:') else kind.rsplit(':', 1)[0]))
 	if ctx.driver:
 		pre, post = validity(graph, spec[1]) if 'ok' == spec[0] else (True, True)
 		answer = ctx.driver.ask(f'exit {int("ok" == spec[0])} {int(pre)} 1 {int(post)} {int(generation_ok)}')
@@ -853,6 +886,8 @@ def carrier_matrix(rng):
 	"""every validation error kind x struct disposition x usage, the carrier in an imported file (or next to its host)"""
 	graphs = []
 	for error in CARRIER_ERRORS:
+		if 'ok-part' == error:
+			continue
 		for disposition in ('plain', 'abstract', 'inline'):
 			for usage in ('none', 'named', 'unnamed', 'fieldtype'):
 				if 'named' == usage and 'inline' != disposition:
@@ -865,6 +900,19 @@ def carrier_matrix(rng):
 						'f1': {'path': 'shared/f1.cats', 'kind': 'parsed', 'items': [['decl', 'alias', 'SharedAlias', False], carrier]}}
 				else:
 					files = {'f0': {'path': 'f0.cats', 'kind': 'parsed', 'items': [['decl', 'alias', 'RootAlias', False], carrier] + host}}
+				graphs.append({'files': files, 'root': 'f0', 'shape': 'carriers', 'missing': [], 'nested': False})
+	# valid sets whose attributes name members that exist only after expansion, the inline struct in an imported file or next to its host
+	for what in REFERENCES:
+		for usage in ('named', 'unnamed'):
+			for imported in (True, False):
+				carrier = ['decl', 'carrier:ok-part:inline', 'PartType', False]
+				host = ['decl', f'refhost:{what}-{usage}:PartType', 'HostType', False]
+				if imported:
+					files = {
+						'f0': {'path': 'f0.cats', 'kind': 'parsed', 'items': [['import', 'f1'], ['decl', 'alias', 'RootAlias', False], host]},
+						'f1': {'path': 'shared/f1.cats', 'kind': 'parsed', 'items': [['decl', 'alias', 'SharedAlias', False], carrier]}}
+				else:
+					files = {'f0': {'path': 'f0.cats', 'kind': 'parsed', 'items': [['decl', 'alias', 'RootAlias', False], carrier, host]}}
 				graphs.append({'files': files, 'root': 'f0', 'shape': 'carriers', 'missing': [], 'nested': False})
 	return graphs
 
@@ -993,12 +1041,15 @@ MANIFEST = {
 		'missing and unparsable files included): parseFiles_terminates (measure: files not yet processed), dfs_order / dfs_order_names / dfs_error '
 		'(the executable model computes the depth-first import-order specification), each_file_once, contributes_iff_reachable, '
 		'reachable_exactly_once, unreachable_absent, imports_before_own(+_acyclic), root_last, missing_file_error, unparsable_file_error, '
-		'parse_ok_iff, and the exit-status table exit_range / exit_zero_iff / exit_two_iff / exit_one_iff / output_only_when_valid. The model is '
+		'parse_ok_iff, and the exit-status table exit_range / exit_zero_iff / exit_zero_steps / exit_two_iff / exit_one_iff / output_only_when_valid '
+		'over the steps of main() in its order (PRE validation of the parsed set, apply_attributes, expansion, POST validation, generation), with '
+		'pre_validation_before_attributes (the first pass sees un-applied attributes: a set it rejects exits 2 whatever apply_attributes would do). The model is '
 		'tied to catparser/__main__.py by a differential run on generated import graphs x working directories x include spellings, through '
 		'LarkMultiFileParser, main() and real `python -m catparser` processes; the graphs include distinct files whose names differ only in letter '
 		'case / unicode normal form / under case folding (each must be parsed), one file under several import spellings (parsed once), and a sweep '
 		'of validation errors of both stages on plain / abstract / inline structs used as named inline, unnamed inline, member type or not at all '
-		'(exit status against the model and against the validator run over the whole parsed set).'),
+		'(exit status against the model and against the validator run over the whole parsed set), member attributes the member type does not have '
+		'(reported, exit 2), and valid sets whose attributes name members that exist only after the expansion of an inline struct (exit 0).'),
 	'level_note': (
 		'Trusted: Lean kernel + {propext, Classical.choice, Quot.sound}; hand-written model tied by differential execution only; files are abstracted '
 		'to (imports, declaration names); validation/expansion/generation are parameters of the exit-status theorems; an import string is abstracted '
